@@ -58,12 +58,18 @@ DefaultScts(s) == CASE Len(s) % 3 = 0 -> <<"good">> [] Len(s) % 3 = 1 -> <<"othe
 
 (* ---------- cases ---------- *)
 Case(s, pat, mode, preAki, preEku, enc, scts) ==
-  [layout |-> s, crit |-> pat, aki |-> IF Cnt(s, "AKI") > 0 THEN "k1" ELSE "none", mode |-> mode,
+  [layout |-> s, crit |-> pat, aki |-> IF Cnt(s, "AKI") = 0 THEN "none" ELSE IF pat = "alt" THEN "k1full" ELSE "k1", mode |-> mode,
    preAki |-> preAki, preEku |-> preEku, enc |-> enc, scts |-> scts]
-Modes == {<<"direct", "none", TRUE>>, <<"pre", "none", TRUE>>, <<"pre", "k1", TRUE>>, <<"pre", "k2", TRUE>>, <<"pre", "k2", FALSE>>}
+\* AKI values are opaque to the specification; the forms of RFC 5280 4.2.1.1 they stand for:
+\*   k1, k2   keyIdentifier only          k1full, k2full   keyIdentifier + authorityCertIssuer + authorityCertSerialNumber
+\*   isonly   authorityCertIssuer + authorityCertSerialNumber, no keyIdentifier
+\* The precertificate carries k1 (k1full under the "alt" pattern); the pre-issuer none or any of k1, k2, k2full, isonly.
+Modes == {<<"direct", "none", TRUE>>, <<"pre", "none", TRUE>>, <<"pre", "k1", TRUE>>, <<"pre", "k2", TRUE>>,
+          <<"pre", "k2full", TRUE>>, <<"pre", "isonly", TRUE>>, <<"pre", "k2", FALSE>>}
 LayoutCases == {Case(s, pat, m[1], m[2], m[3], DefaultEnc, DefaultScts(s)) : s \in Layouts \cup DupLayouts, pat \in CritPats, m \in Modes}
 EncCases == {Case(s, "std", m[1], m[2], m[3], e, <<"good">>) :
-                s \in EncLayouts, e \in EncSet, m \in {<<"direct", "none", TRUE>>, <<"pre", "k2", TRUE>>, <<"pre", "none", TRUE>>}}
+                s \in EncLayouts, e \in EncSet, m \in {<<"direct", "none", TRUE>>, <<"pre", "k2", TRUE>>, <<"pre", "none", TRUE>>,
+                                                       <<"pre", "k2full", TRUE>>}}
 SctCases == {Case(<<"AKI", "POISON", "SAN">>, "std", m[1], m[2], m[3], DefaultEnc, l) :
                 l \in SctLists, m \in {<<"direct", "none", TRUE>>, <<"pre", "k2", TRUE>>}}
 Cases == LayoutCases \cup EncCases \cup SctCases
